@@ -346,6 +346,23 @@ func (cr *clRun) judgeAdmin(a *adminOp, op Op, pre map[string]string, idleBefore
 		}
 	case "delsnap":
 		if a.err != nil {
+			// A volume-level delete is not atomic across replicas: a request that fails half-way
+			// (a replica dropped out during it) can leave the snapshot marked removed on the
+			// replicas it had reached, and their cleaners will then rightly merge it away. From
+			// that moment the snapshot is no longer "retained" for the oracles.
+			for _, sn := range cr.snaps {
+				if sn.name != a.arg || sn.deleted {
+					continue
+				}
+				for _, rn := range cr.c.reps {
+					var dm struct{ Removed bool }
+					if readJSON(filepath.Join(rn.dir, sn.disk+".meta"), &dm) == nil && dm.Removed {
+						sn.deleted = true
+						cr.res.stat("failed_delete_left_removed_mark", 1)
+						break
+					}
+				}
+			}
 			return
 		}
 		if a.acquired {
@@ -746,6 +763,9 @@ func (cr *clRun) deepChecks(when string, promoted string) {
 				if w := cr.unackedWriteOnlyOnWO(bad); w != nil {
 					clause += "/failed-write-kept-by-rebuilding-replica"
 					note = fmt.Sprintf(" [write %d failed towards the initiator but was applied by %v while rebuilding; a cold start followed]", w.idx, w.woAppliers)
+				} else if w := cr.failedWriteRetained(bad, img, ref); w != nil {
+					clause += "/failed-write-kept-by-rebuilding-replica"
+					note = fmt.Sprintf(" [one side holds the data of write %d, which failed towards the initiator]", w.idx)
 				}
 			}
 			cr.viol(prop("C02"), clause, "%s: RW replicas %s and %s differ: %s%s", when, rws[0].name, rn.name, describeDiff(img, ref), note)
